@@ -2,17 +2,59 @@
 
 Tie: T (Gen/MetricPyx.v regenerated from metric.pyx/types.pxd) + B: the compiled kernel through
 gambit.metric.jaccarddist / jaccard, the generated model, and an independent integer oracle for
-"the exact ratio rounded once to binary32 (nearest, ties to even)" are run on the same pairs."""
+"the exact ratio rounded once to binary32 (nearest, ties to even)" are run on the same pairs.
+
+Coverage table (item of the property text -> stream(s) that drive it ON THE IMPLEMENTATION; P = the
+property predicate is judged there, M = also compared with the Coq model):
+  distance = ratio rounded once        exhaustive-subset-pairs, dtype-pairs, random-* (PM); every new stream (P)
+  result IS a binary32 value           pair + every new stream: float(d) == float(float32(d)) (P)  [was hidden by f32_bits]
+  bit-exact below 2^24 elements        big (2 named), gen-large: 2*10^4 .. 10^6 elements, full 16-bit range (P, M op 204)
+  two empty sets -> 0                  exhaustive, dtype-pairs (all 36), form-layouts (empty strided/offset views) (PM)
+  jaccard = 1 - distance               pair: jaccard(a,b) AND jaccard(b,a); form: positional/keyword/extension/self (PM)
+  empty/equal/disjoint/nested/interl.  exhaustive (all subset pairs of a 6-universe), random-*, top-of-range, bulk
+  top of each integer range            dtype-pairs (2^bits-8), form top-of-range: windows hugging EACH array's own
+                                       dtype maximum (signed max 2^(b-1)-1 and unsigned max), 2^15/16/31/32/63 boundaries,
+                                       wide array at its own top vs narrow array, residue collisions (PM)
+  6x6 dtype pairs x both orders        dtype-pairs, form-layouts (every dtype x every layout, both sides), bulk 6x6
+  API jaccarddist / jaccard            positional (pair), keyword coords1=/coords2=, gambit._cython.metric.* on unsigned
+                                       views, same object for both arguments, repeated call (form) (P)
+  memory layout / container            form-layouts: contiguous, stride 2/3 with misleading garbage, negative stride,
+                                       interior slice, 2-D column / row, packed-record field (unaligned), ndarray
+                                       subclass, bytearray-backed, np.memmap (w+, c), read-only, read-only memmap
+                                       (read-only: exact or ValueError, refusals counted in evidence) (PM)
+  caller objects reused across calls   reuse: same buffers / same array objects overwritten in place between calls (same
+                                       length, first, last element), reused out= array, reused SignatureArray (P)
+  entry points reaching the kernel     pair: jaccarddist_array x 1 reference; bulk: jaccarddist_array (SignatureArray,
+                                       slice view with non-zero base, fancy index, non-intp bounds, list/tuple/
+                                       SignatureList, HDF5-backed file, out= contiguous/strided/reused, keywords, empty),
+                                       jaccarddist_matrix (chunksize, ref_indices, out=), jaccarddist_pairwise (flat,
+                                       indices), 1/2/5/default OpenMP threads, 4 concurrent Python threads (P)
+  non-native / non-integer dtypes      malformed-dtype (exact or error)
+  NumPy vs Python integers             the two functions take none; bulk passes ref_indices / indices / chunksize both as
+                                       Python ints / lists and as NumPy intp arrays / int64 (P)
+  not driven here                      `gambit dist` / `gambit query` (cells printed with 4 decimals resp. through a
+                                       database: C16, C04, C05 tie them to gambit.metric.jaccarddist); progress= meters;
+                                       jaccard_generic / jaccard_bits (separate pure-Python index functions, not named by
+                                       the property); options, file names: the two observed functions have none.
+Layouts, bulk containers, reuse sequences and gen-large sizes are outside the list-based Coq model: the value
+semantics is the same, so form cases are still compared with the model (ops 205/206), gen-large with op 204
+(ratio_f32); bulk and reuse are judged by the property predicate alone."""
 import itertools
 
 import numpy as np
 
 PROP = 'C02'
 RULE = ('pairs of sorted duplicate-free integer arrays x dtype pairs x both argument orders; non-trivial: '
-        'non-empty intersection and neither set contained in the other')
+        'non-empty intersection and neither set contained in the other. Audit streams: form-layouts / '
+        'top-of-range (in-domain pairs hugging each dtype maximum, in 14 memory layouts, through positional / keyword / '
+        'extension / same-object call forms of jaccarddist and jaccard), gen-large (seeded sets of 2*10^4..10^6 '
+        'elements), bulk (a collection of signatures through jaccarddist_array / _matrix / _pairwise in every '
+        'container, out= form and thread count, every cell judged), reuse (buffers overwritten in place between '
+        'calls); non-trivial there by the same rule (bulk / reuse: some pair of the case is non-trivial)')
 TRUSTED = ['tools/pyx2v.py (Cython subset -> Gallina; C integer / binary32 semantics as documented in its header)',
            'Flocq 4 binary32 model of C float division on this platform (validated bit-for-bit by the run)',
-           'harness oracle round_ratio_f32 (exact integer implementation of round-to-nearest-even)']
+           'harness oracle round_ratio_f32 (exact integer implementation of round-to-nearest-even)',
+           'NumPy set operations (intersect1d / union1d on uint64 values) as the counting oracle of the gen-large stream']
 ASSUMPTIONS = ['inputs are sorted and duplicate-free (outside that the property says nothing)',
                'C comparison of unsigned values of different widths is value-preserving',
                'array lengths < 2^62 (intptr_t arithmetic does not overflow)']
@@ -96,6 +138,12 @@ def k_pair(ctx, cases):
 			ctx.violation('pair', c, f'jaccarddist = {float(d1)!r} (bits {bits}) but |A^B|/|AuB| = {s}/{u} rounds to bits {want}',
 			              impl=bits, spec=want)
 			continue
+		# "rounded once to single precision": the reported number itself is a binary32 value (f32_bits above
+		# would silently round a double-precision result)
+		if not float(d1) == float(np.float32(d1)):
+			ctx.violation('pair', c, f'jaccarddist = {float(d1)!r} is not a single-precision value ({s}/{u} rounded once to '
+			              f'binary32 is {float(np.array([want], dtype=np.uint32).view(np.float32)[0])!r})', impl=float(d1), spec=want)
+			continue
 		if f32_bits(d2) != bits:
 			ctx.violation('pair', c, f'distance not symmetric: {float(d1)!r} vs {float(d2)!r}', impl=bits, swapped=f32_bits(d2))
 			continue
@@ -115,6 +163,11 @@ def k_pair(ctx, cases):
 		jwant = f64_bits(1.0 - float(np.float32(d1)))
 		if jb != jwant:
 			ctx.violation('pair', c, f'jaccard = {j1!r} is not 1 - distance = {1.0 - float(d1)!r}', impl=jb, spec=jwant)
+			continue
+		j2 = jaccard(b, a)
+		if f64_bits(j2) != jwant:
+			ctx.violation('pair', c, f'jaccard(b, a) = {j2!r} is not 1 - distance = {1.0 - float(d1)!r} (jaccard(a, b) = {j1!r})',
+			              impl=f64_bits(j2), spec=jwant)
 			continue
 		if ans is None:
 			continue
@@ -211,12 +264,577 @@ def k_big(ctx, cases):
 			              f'{s}/{u} correctly rounded has bits {want}', impl=bits, spec=want)
 
 
-KINDS = {'pair': k_pair, 'dtype': k_dtype, 'big': k_big}
+# ------------------------------------------------------------------------------------------------
+# audit streams: memory layouts / call forms, large generated sets, bulk entry points, reuse
+# ------------------------------------------------------------------------------------------------
+
+LAYOUTS = ['c', 'stride2', 'stride3', 'rev', 'offset', 'col', 'row', 'field', 'sub', 'bytearray', 'memmap', 'memmap-c',
+           'ro', 'memmap-r']
+# layouts that a correct implementation may refuse (read-only buffers); it must never return another number
+REFUSABLE = {'ro', 'memmap-r'}
+_SCRATCH = []
+
+
+class _Sub(np.ndarray):
+	"""an ndarray subclass (what array wrappers hand around)"""
+
+
+def _dmax(dt):
+	bits = 8 * int(dt[1])
+	return (1 << (bits - 1)) - 1 if dt[0] == 'i' else (1 << bits) - 1
+
+
+def _su(a, b):
+	A, B = set(a), set(b)
+	return len(A ^ B), len(A | B)
+
+
+def _garbage(n, dt, own, other):
+	"""n filler elements of dtype dt that would change the count if they were read: the other array's and the
+	own values (and neighbours), cycled"""
+	pool = [v for x in list(other) + list(own) for v in (x, x + 1) if 0 <= v <= _dmax(dt)] or [0, 1, 2]
+	return _arr([pool[i % len(pool)] for i in range(n)], dt)
+
+
+def _layout(vals, dt, how, other=()):
+	"""an array object of dtype dt whose elements are vals, stored as `how` says"""
+	base = _arr(vals, dt)
+	n = len(base)
+	if how == 'c':
+		return base
+	if how in ('stride2', 'stride3'):
+		k = int(how[-1])
+		buf = _garbage(n * k + 2, dt, vals, other)
+		v = buf[1:1 + n * k:k]
+		v[...] = base
+		return v
+	if how == 'rev':
+		buf = base[::-1].copy()
+		return buf[::-1]
+	if how == 'offset':
+		buf = _garbage(n + 7, dt, vals, other)
+		buf[3:3 + n] = base
+		return buf[3:3 + n]
+	if how == 'col':
+		m = _garbage(n * 3, dt, vals, other).reshape(n, 3)
+		m[:, 1] = base
+		return m[:, 1]
+	if how == 'row':
+		m = _garbage(n * 3, dt, vals, other).reshape(3, n)
+		m[1] = base
+		return m[1]
+	if how == 'field':
+		rec = np.zeros(n, dtype=[('p', 'u1'), ('x', dt), ('y', 'u2')])   # packed: x is not aligned
+		rec['p'] = 255
+		rec['y'] = 65535
+		rec['x'] = base
+		return rec['x']
+	if how == 'sub':
+		return base.view(_Sub)
+	if how == 'bytearray':
+		return np.frombuffer(bytearray(base.tobytes()), dtype=dt)
+	if how == 'ro':
+		base.flags.writeable = False
+		return base
+	if how.startswith('memmap'):
+		if n == 0:
+			return base[0:0]      # an empty file cannot be mapped
+		import os
+		from vf import impl
+		if not _SCRATCH:
+			_SCRATCH.append(impl.scratch_dir())
+		path = os.path.join(_SCRATCH[0], f'mm{len(os.listdir(_SCRATCH[0]))}.bin')
+		mm = np.memmap(path, dtype=dt, mode='w+', shape=(n,))
+		mm[:] = base
+		if how == 'memmap':
+			return mm
+		mm.flush()
+		del mm
+		return np.memmap(path, dtype=dt, mode='c' if how == 'memmap-c' else 'r', shape=(n,))
+	raise ValueError(how)
+
+
+def _dist_problem(r, s, u):
+	"""None when r is what the property says for |A^B| = s, |AuB| = u, else a description"""
+	try:
+		x = float(r)
+	except Exception:
+		return f'{r!r} is not a number'
+	if x != x:
+		return 'nan (not a distance; an output cell that was never written reads like this)'
+	if not x == float(np.float32(x)):
+		return f'{x!r} is not a single-precision value'
+	want = round_ratio_f32(s, u) if u else 0
+	if u <= (1 << 24) and f32_bits(x) != want:
+		return f'{x!r} (bits {f32_bits(x)}) but |A^B|/|AuB| = {s}/{u} rounds to bits {want}'
+	return None
+
+
+def _index_problem(j, d):
+	"""None when the index j is one minus the distance d (double arithmetic on the binary32 distance)"""
+	try:
+		jb = f64_bits(float(j))
+	except Exception:
+		return f'{j!r} is not a number'
+	if jb != f64_bits(1.0 - float(np.float32(d))):
+		return f'{float(j)!r} is not 1 - distance = {1.0 - float(np.float32(d))!r}'
+	return None
+
+
+def k_form(ctx, cases):
+	"""one in-domain pair (non-negative values inside each array's own dtype) stored in the given memory layouts,
+	through every call form of the two observed functions"""
+	from gambit.metric import jaccarddist, jaccard
+	import gambit._cython.metric as cm
+	reqs = []
+	for c in cases:
+		ka, sa = KIND[c['da'][0]], int(c['da'][1])
+		kb, sb = KIND[c['db'][0]], int(c['db'][1])
+		reqs += [(205, [ka, sa, c['a'], kb, sb, c['b']]), (206, [ka, sa, c['a'], kb, sb, c['b']])]
+	ans = ctx.model(reqs) if ctx.model_ok and max(len(c['a']) + len(c['b']) for c in cases) <= 600 else None
+	for ci, c in enumerate(cases):
+		s, u = _su(c['a'], c['b'])
+		inter = len(c['a']) + len(c['b']) - u
+		ctx.case(c, nontrivial=0 < inter < min(len(c['a']), len(c['b'])))
+		x = _layout(c['a'], c['da'], c['la'], c['b'])
+		y = _layout(c['b'], c['db'], c['lb'], c['a'])
+		if x.tolist() != c['a'] or y.tolist() != c['b'] or x.dtype != np.dtype(c['da']) or y.dtype != np.dtype(c['db']):
+			raise RuntimeError(f'harness layout {c["la"]}/{c["lb"]} does not hold the case values')
+		refusable = c['la'] in REFUSABLE or c['lb'] in REFUSABLE
+
+		def uv(z):
+			return z.view('u' + str(z.dtype.itemsize))
+		calls = [('jaccarddist(a, b)', 'd', s, u, lambda: jaccarddist(x, y)),
+		         ('jaccarddist(b, a)', 'd', s, u, lambda: jaccarddist(y, x)),
+		         ('jaccarddist(coords1=a, coords2=b)', 'd', s, u, lambda: jaccarddist(coords1=x, coords2=y)),
+		         ('jaccarddist(coords2=b, coords1=a)', 'd', s, u, lambda: jaccarddist(coords2=y, coords1=x)),
+		         ('gambit._cython.metric.jaccarddist(unsigned views of a, b)', 'd', s, u, lambda: cm.jaccarddist(uv(x), uv(y))),
+		         ('jaccarddist(a, a) [same object twice]', 'd', 0, len(c['a']), lambda: jaccarddist(x, x)),
+		         ('jaccarddist(b, b) [same object twice]', 'd', 0, len(c['b']), lambda: jaccarddist(y, y)),
+		         ('jaccard(a, b)', 'j', s, u, lambda: jaccard(x, y)),
+		         ('jaccard(b, a)', 'j', s, u, lambda: jaccard(y, x)),
+		         ('jaccard(coords1=a, coords2=b)', 'j', s, u, lambda: jaccard(coords1=x, coords2=y)),
+		         ('gambit._cython.metric.jaccard(unsigned views of b, a)', 'j', s, u, lambda: cm.jaccard(uv(y), uv(x))),
+		         ('jaccard(a, a) [same object twice]', 'j', 0, len(c['a']), lambda: jaccard(x, x)),
+		         ('jaccarddist(a, b) [second call on the same objects]', 'd', s, u, lambda: jaccarddist(x, y))]
+		first = None
+		bad = False
+		for name, what, s_, u_, fn in calls:
+			try:
+				r = fn()
+			except Exception as e:
+				if refusable and isinstance(e, (ValueError, TypeError, BufferError)):
+					ctx.count('refused:read-only-array')
+					continue
+				ctx.violation('form', c, f'{name} with layouts {c["la"]}/{c["lb"]}, dtypes {c["da"]}/{c["db"]} raised '
+				              f'{type(e).__name__}: {e}; the distance of these sorted sets is {s_}/{u_}', impl=type(e).__name__)
+				bad = True
+				break
+			if what == 'd':
+				msg = _dist_problem(r, s_, u_)
+				if first is None and name == 'jaccarddist(a, b)':
+					first = r
+			else:
+				want = round_ratio_f32(s_, u_) if u_ else 0
+				d = float(np.array([want], dtype=np.uint32).view(np.float32)[0])
+				msg = _index_problem(r, d) if u_ <= (1 << 24) else None
+			if msg:
+				ctx.violation('form', c, f'{name} with layouts {c["la"]}/{c["lb"]}, dtypes {c["da"]}/{c["db"]} = {msg}',
+				              impl=repr(r), spec=[s_, u_])
+				bad = True
+				break
+		if bad or first is None or ans is None:
+			continue
+		md, mj = ans[2 * ci], ans[2 * ci + 1]
+		if md != [0, f32_bits(first)]:
+			ctx.broke('correspondence form (jaccarddist)', f'{c}: impl bits {f32_bits(first)}, model {md}')
+		elif mj != [0, f64_bits(1.0 - float(np.float32(first)))]:
+			ctx.broke('correspondence form (jaccard)', f'{c}: model {mj}')
+
+
+def _gen_sets(c):
+	"""the two sets of a 'gen' case as sorted uint64 value arrays (legacy RandomState: stable streams)"""
+	r = np.random.RandomState(c['seed'])
+	m = min(_dmax(c['da']), _dmax(c['db']))
+	n = min(c['n'], m + 1)
+	if c['place'] == 'full':
+		pool = np.arange(0, n, dtype=np.uint64) + np.uint64(m + 1 - n)        # every value up to the narrower maximum
+	else:
+		span = m + 1 if c['place'] == 'spread' else min(m + 1, 3 * n)
+		pool = np.unique(r.randint(0, span, size=n + n // 2, dtype=np.uint64))[:n]
+		if c['place'] == 'top':
+			pool = (np.uint64(m) - pool)[::-1]
+	tag = r.randint(0, 8, size=len(pool))
+	both = tag < c['ov']
+	if c['shape'] == 'nested':
+		in_a, in_b = np.ones(len(pool), bool), both
+	elif c['shape'] == 'equal':
+		in_a = in_b = np.ones(len(pool), bool)
+	elif c['shape'] == 'disjoint':
+		in_a, in_b = tag % 2 == 0, tag % 2 == 1
+	else:
+		in_a, in_b = both | (tag % 2 == 0), both | (tag % 2 == 1)
+	return pool[in_a], pool[in_b]
+
+
+def k_gen(ctx, cases):
+	"""large seeded sets (described by parameters, built with NumPy; |A|, |B| < 2^24)"""
+	from gambit.metric import jaccarddist, jaccard, jaccarddist_array
+	for c in cases:
+		va, vb = _gen_sets(c)
+		inter = int(np.intersect1d(va, vb, assume_unique=True).size)
+		u = len(va) + len(vb) - inter
+		s = u - inter
+		if int(np.union1d(va, vb).size) != u:
+			raise RuntimeError('harness oracle: union count mismatch')
+		ctx.case(c, nontrivial=0 < inter < min(len(va), len(vb)))
+		a = va.astype('u' + c['da'][1]).view(c['da'])
+		b = vb.astype('u' + c['db'][1]).view(c['db'])
+		if c.get('strided'):
+			buf = np.zeros(2 * len(a) + 1, dtype=a.dtype)      # a's elements at the odd positions, zeros between
+			buf[1::2] = a
+			a = buf[1::2]
+		calls = [('jaccarddist(a, b)', lambda: jaccarddist(a, b)), ('jaccarddist(b, a)', lambda: jaccarddist(b, a)),
+		         ('jaccarddist_array(a, [b])[0]', lambda: jaccarddist_array(a, [b])[0])]
+		d = None
+		for name, fn in calls:
+			r = fn()
+			msg = _dist_problem(r, s, u)
+			if msg:
+				ctx.violation('gen', c, f'{name} on seeded sets of {len(va)} and {len(vb)} elements (dtypes {c["da"]}/{c["db"]}) = {msg}',
+				              impl=repr(r), spec=[s, u])
+				break
+			d = r if d is None else d
+		else:
+			for name, fn in (('jaccard(a, b)', lambda: jaccard(a, b)), ('jaccard(b, a)', lambda: jaccard(b, a))):
+				msg = _index_problem(fn(), d)
+				if msg:
+					ctx.violation('gen', c, f'{name} on seeded sets of {len(va)} and {len(vb)} elements = {msg}', spec=[s, u])
+					break
+			else:
+				if ctx.model_ok and u:
+					m = ctx.model([(204, [s, u])])[0]
+					if m != f32_bits(d):
+						ctx.broke('correspondence gen (ratio_f32)', f's={s} u={u} impl={f32_bits(d)} model={m}')
+
+
+def k_bulk(ctx, cases):
+	"""a collection of signatures (all of dtype dr) and a query (dtype dq) through every bulk entry point that
+	reaches the kernel; every cell must be the property value of the pair it stands for.  Property predicate only."""
+	from concurrent.futures import ThreadPoolExecutor
+	from gambit.metric import jaccarddist_array, jaccarddist_matrix, jaccarddist_pairwise
+	from gambit.sigs.base import SignatureArray, SignatureList
+	from gambit._cython.threads import omp_set_num_threads, omp_get_max_threads
+	for c in cases:
+		sigs, qv = c['sigs'], c['q']
+		n = len(sigs)
+		refs = [_arr(x, c['dr']) for x in sigs]
+		q = _arr(qv, c['dq'])
+		su = {}
+
+		def exp(i, j):
+			"""(s, u) of the pair: index -1 is the query"""
+			key = (min(i, j), max(i, j))
+			if key not in su:
+				su[key] = _su(qv if key[0] < 0 else sigs[key[0]], qv if key[1] < 0 else sigs[key[1]])
+			return su[key]
+		nontriv = any(0 < len(set(qv) & set(x)) < min(len(qv), len(x)) for x in sigs)
+		ctx.case(c, nontrivial=nontriv)
+		sa = SignatureArray(refs, dtype=np.dtype(c['dr']))
+		perm = np.array(c['perm'], dtype=np.intp) if c.get('npidx') else c['perm']      # index list or NumPy index array
+		lo = min(1, n)
+		nan = np.float32('nan')
+		forms = []     # (name, callable -> flat sequence of cells, list of (i, j) pairs the cells stand for)
+
+		def add(name, fn, pairs):
+			forms.append((name, fn, pairs))
+		qrow = [(-1, j) for j in range(n)]
+		add('jaccarddist_array(q, SignatureArray)', lambda: jaccarddist_array(q, sa), qrow)
+		add('jaccarddist_array(query=q, refs=SignatureArray, out=new array)',
+		    lambda: jaccarddist_array(query=q, refs=sa, out=np.full(n, nan, dtype=np.float32)), qrow)
+
+		def strided_out():
+			big = np.full(2 * n + 1, nan, dtype=np.float32)
+			r = jaccarddist_array(q, sa, out=big[1::2])
+			return list(big[1::2]) + list(r)
+		add('jaccarddist_array(q, SignatureArray, out=strided view): out then returned', strided_out, qrow + qrow)
+
+		def reused_out():
+			o = np.full(n, nan, dtype=np.float32)
+			first = list(jaccarddist_array(refs[0], sa, out=o)) if n else []
+			return first + list(jaccarddist_array(q, refs, out=o)) + list(o)
+		add('out= array reused for a second query (list path)', reused_out, ([(0, j) for j in range(n)] if n else []) + qrow + qrow)
+		add('jaccarddist_array(q, SignatureArray[1:]) [view, non-zero base]', lambda: jaccarddist_array(q, sa[lo:]), qrow[lo:])
+		add('jaccarddist_array(q, SignatureArray[perm])', lambda: jaccarddist_array(q, sa[perm]), [(-1, j) for j in c['perm']])
+		for bt in ('i4', 'u8', 'u2'):
+			if sa.bounds[-1] <= 60000:
+				add(f'jaccarddist_array(q, SignatureArray with {bt} bounds)',
+				    lambda bt=bt: jaccarddist_array(q, SignatureArray.from_arrays(sa.values, sa.bounds.astype(bt), None)), qrow)
+		add('jaccarddist_array(q, list)', lambda: jaccarddist_array(q, list(refs)), qrow)
+		add('jaccarddist_array(q, tuple)', lambda: jaccarddist_array(q, tuple(refs)), qrow)
+		add('jaccarddist_array(q, SignatureList)', lambda: jaccarddist_array(q, SignatureList(refs, dtype=np.dtype(c['dr']))), qrow)
+		add('jaccarddist_array(ref[i], SignatureArray) for every i',
+		    lambda: [v for i in range(n) for v in jaccarddist_array(refs[i], sa)], [(i, j) for i in range(n) for j in range(n)])
+		queries = [q] + refs[:2]
+		qidx = [-1] + list(range(min(2, n)))
+		for cs in c['chunks']:
+			add(f'jaccarddist_matrix(queries, SignatureArray, chunksize={cs})',
+			    lambda cs=cs: jaccarddist_matrix(queries, sa, chunksize=np.int64(cs) if cs and c.get('npidx') else cs).ravel(),
+			    [(i, j) for i in qidx for j in range(n)])
+		add('jaccarddist_matrix(queries=list, refs=list, ref_indices=perm, chunksize=2, out=given)',
+		    lambda: jaccarddist_matrix(queries=queries, refs=list(refs), ref_indices=perm, chunksize=2,
+		                               out=np.full((len(queries), len(perm)), nan, dtype=np.float32)).ravel(),
+		    [(i, j) for i in qidx for j in c['perm']])
+		add('jaccarddist_pairwise(SignatureArray)', lambda: jaccarddist_pairwise(sa).ravel(), [(i, j) for i in range(n) for j in range(n)])
+		add('jaccarddist_pairwise(list, flat=True)', lambda: jaccarddist_pairwise(list(refs), flat=True),
+		    [(i, j) for i in range(n) for j in range(i + 1, n)])
+		add('jaccarddist_pairwise(SignatureArray, indices=perm, flat=True)', lambda: jaccarddist_pairwise(sa, indices=perm, flat=True),
+		    [(c['perm'][i], c['perm'][j]) for i in range(len(perm)) for j in range(i + 1, len(perm))])
+
+		def threaded():
+			with ThreadPoolExecutor(4) as ex:
+				rows = list(ex.map(lambda z: list(jaccarddist_array(z, sa)) + list(jaccarddist_array(z, refs)), [q] + refs))
+			return [v for row in rows for v in row]
+		add('jaccarddist_array from 4 concurrent Python threads', threaded, [(i, j) for i in [-1] + list(range(n)) for _ in (0, 1) for j in range(n)])
+		if c.get('hdf5') and c['dr'][0] == 'u' and n:
+			def hdf5():
+				import os
+				from vf import impl
+				from gambit.kmers import KmerSpec
+				from gambit.sigs.base import AnnotatedSignatures, SignaturesMeta, dump_signatures, load_signatures
+				if not _SCRATCH:
+					_SCRATCH.append(impl.scratch_dir())
+				ks = KmerSpec({'2': 8, '4': 16, '8': 32}[c['dr'][1]], 'ATGAC')
+				path = os.path.join(_SCRATCH[0], f'sigs{len(os.listdir(_SCRATCH[0]))}.gs')
+				dump_signatures(path, AnnotatedSignatures(SignatureArray(refs, kmerspec=ks, dtype=np.dtype(c['dr'])),
+				                                          np.array([f's{i}' for i in range(n)]), SignaturesMeta()))
+				with load_signatures(path) as ld:
+					return list(jaccarddist_array(q, ld)) + list(jaccarddist_array(q, ld[lo:])) + list(jaccarddist_matrix([q], ld, chunksize=2).ravel())
+			add('signature file written and loaded back (HDF5Signatures): jaccarddist_array / [1:] / jaccarddist_matrix chunksize=2',
+			    hdf5, qrow + qrow[lo:] + qrow)
+		before = omp_get_max_threads()
+		try:
+			if c.get('omp'):
+				omp_set_num_threads(c['omp'])
+			for name, fn, pairs in forms:
+				try:
+					cells = list(fn())
+				except Exception as e:
+					ctx.violation('bulk', c, f'{name} (reference dtype {c["dr"]}, query dtype {c["dq"]}, OpenMP threads '
+					              f'{c.get("omp") or "default"}) raised {type(e).__name__}: {e}', impl=type(e).__name__)
+					break
+				if len(cells) != len(pairs):
+					ctx.violation('bulk', c, f'{name} returned {len(cells)} cells for {len(pairs)} pairs', impl=len(cells), spec=len(pairs))
+					break
+				msgs = [(k, _dist_problem(v, *exp(*pairs[k]))) for k, v in enumerate(cells)]
+				msgs = [(k, m) for k, m in msgs if m]
+				if msgs:
+					k, m = msgs[0]
+					i, j = pairs[k]
+					ctx.violation('bulk', c, f'{name} (reference dtype {c["dr"]}, query dtype {c["dq"]}, OpenMP threads '
+					              f'{c.get("omp") or "default"}): cell {k} for the pair ({"query" if i < 0 else "signature %d" % i}, '
+					              f'{"query" if j < 0 else "signature %d" % j}) = {m}', impl=[float(v) for v in cells][:200])
+					break
+		finally:
+			omp_set_num_threads(before)
+
+
+def k_reuse(ctx, cases):
+	"""the caller keeps ONE pair of buffers (and one out array, one SignatureArray) and overwrites them in place
+	between calls; every call must report the distance of the values present at that call.  Predicate only."""
+	from gambit.metric import jaccarddist, jaccard, jaccarddist_array
+	from gambit.sigs.base import SignatureArray
+	from gambit._cython.threads import omp_set_num_threads, omp_get_max_threads
+	before = omp_get_max_threads()
+	omp_set_num_threads(1)
+	try:
+		for c in cases:
+			steps = c['steps']
+			na, nb = max(len(a) for a, _ in steps), max(len(b) for _, b in steps)
+			bufa, bufb = _arr([0] * na, c['da']), _arr([0] * nb, c['db'])
+			out = np.zeros(1, dtype=np.float32)
+			sab = SignatureArray.from_arrays(bufb, np.array([0, 0], dtype=np.intp), None)
+			x = y = None
+			ctx.case(c, nontrivial=any(0 < len(set(a) & set(b)) < min(len(a), len(b)) for a, b in steps))
+			for k, (av, bv) in enumerate(steps):
+				# the very same array objects whenever the lengths allow, else fresh views of the same memory
+				if x is None or len(x) != len(av):
+					x = bufa[:len(av)]
+				if y is None or len(y) != len(bv):
+					y = bufb[:len(bv)]
+				x[...] = _arr(av, c['da'])
+				y[...] = _arr(bv, c['db'])
+				sab.bounds[1] = len(bv)
+				s, u = _su(av, bv)
+				calls = [('jaccarddist(a, b)', 'd', lambda: jaccarddist(x, y)), ('jaccarddist(b, a)', 'd', lambda: jaccarddist(y, x)),
+				         ('jaccard(a, b)', 'j', lambda: jaccard(x, y)),
+				         ('jaccarddist_array(a, [b], out=reused)[0]', 'd', lambda: jaccarddist_array(x, [y], out=out)[0]),
+				         ('jaccarddist_array(a, reused SignatureArray over b)[0]', 'd', lambda: jaccarddist_array(x, sab)[0])]
+				bad = False
+				for name, what, fn in calls:
+					try:
+						r = fn()
+					except Exception as e:
+						msg = f'raised {type(e).__name__}: {e}'
+					else:
+						want = round_ratio_f32(s, u) if u else 0
+						msg = _dist_problem(r, s, u) if what == 'd' else \
+							_index_problem(r, float(np.array([want], dtype=np.uint32).view(np.float32)[0]))
+					if msg:
+						ctx.violation('reuse', c, f'step {k} (buffers overwritten in place, dtypes {c["da"]}/{c["db"]}): {name} on '
+						              f'a={av[:12]}{"..." if len(av) > 12 else ""} b={bv[:12]}{"..." if len(bv) > 12 else ""} = {msg}',
+						              step=k, spec=[s, u])
+						bad = True
+						break
+				if bad:
+					break
+	finally:
+		omp_set_num_threads(before)
+
+
+def _timed(kind, fn):
+	"""wall seconds spent per kind go into the evidence (coverage.seconds_by_kind): the cost of each stream is measured"""
+	import time
+
+	def run(ctx, cases):
+		t0 = time.time()
+		try:
+			return fn(ctx, cases)
+		finally:
+			sec = ctx.extra.setdefault('seconds_by_kind', {})
+			sec[kind] = round(sec.get(kind, 0) + time.time() - t0, 2)
+	run.__doc__ = fn.__doc__
+	return run
+
+
+KINDS = {k: _timed(k, f) for k, f in dict(pair=k_pair, dtype=k_dtype, big=k_big, form=k_form, gen=k_gen, bulk=k_bulk,
+                                           reuse=k_reuse).items()}
 SHRINK = False
 
 
 def _place(sub, base):
 	return [base + x for x in sub]
+
+
+def _universe(rng, top, mode, k):
+	"""k distinct values of [0, top] (sorted): a window hugging top / hugging 0 / around a power of two where a
+	narrower or a signed reading of the bits would change value or order / spread over all magnitudes"""
+	if top + 1 <= k:
+		return list(range(top + 1))
+	if mode == 'pow2':
+		ps = [p for p in (2 ** 15, 2 ** 16, 2 ** 31, 2 ** 32, 2 ** 63) if p - 1 <= top]
+		if ps:
+			p = rng.choice(ps)
+			lo, hi = max(0, p - 2 * k), min(top, p + 2 * k)
+			return sorted(set(rng.sample(range(lo, hi + 1), min(k, hi - lo + 1))) | {p - 1})
+		mode = 'hug-top'
+	if mode == 'hug-top':
+		return sorted(set(rng.sample(range(max(0, top - 3 * k), top), k - 1)) | {top})
+	if mode == 'hug-bottom':
+		return sorted(set(rng.sample(range(1, min(top, 3 * k) + 1), k - 1)) | {0})
+	vals = {top} if rng.random() < 0.3 else set()
+	while len(vals) < k:
+		vals.add(min(top, rng.randrange(0, 1 << rng.randint(1, top.bit_length()))))
+	return sorted(vals)
+
+
+def _shape_pair(rng, pool, shape):
+	half = max(1, len(pool) // 2)
+	if shape == 'equal':
+		A = B = pool[:half]
+	elif shape == 'disjoint':
+		A, B = pool[0::2], pool[1::2]
+	elif shape == 'nested':
+		A = pool
+		B = sorted(rng.sample(A, len(A) // 2))
+	elif shape == 'interleaved':
+		A = pool[0::2]
+		B = sorted(set(pool[1::2]) | set(rng.sample(A, len(A) // 3)))
+	elif shape == 'lasteq':
+		A = sorted(set(rng.sample(pool[:-1], len(pool) // 3)) | {pool[-1]})
+		B = sorted(set(rng.sample(pool[:-1], len(pool) // 2)) | {pool[-1]})
+	elif shape == 'firsteq':
+		A = sorted(set(rng.sample(pool[1:], len(pool) // 3)) | {pool[0]})
+		B = sorted(set(rng.sample(pool[1:], len(pool) // 2)) | {pool[0]})
+	elif shape == 'one-empty':
+		A, B = [], pool[:half]
+	else:
+		A = sorted(rng.sample(pool, rng.randint(0, len(pool))))
+		B = sorted(rng.sample(pool, rng.randint(0, len(pool))))
+	return list(A), list(B)
+
+
+SHAPES = ['equal', 'disjoint', 'nested', 'interleaved', 'lasteq', 'firsteq', 'one-empty', 'random']
+
+
+def _beyond(rng, m, mx, shared):
+	"""values of (m, mx]: the wider array's own top, just above the narrower maximum, and values whose low bits
+	collide with elements of the other array"""
+	if mx <= m:
+		return set()
+	out = set()
+	if rng.random() < 0.7:
+		out |= {mx - i for i in rng.sample(range(0, 6), rng.randint(1, 3))}
+	if rng.random() < 0.5:
+		out |= {m + 1 + i for i in rng.sample(range(0, 6), rng.randint(1, 3)) if m + 1 + i <= mx}
+	bits = -(-m.bit_length() // 8) * 8          # width of the narrower dtype
+	mod = 1 << rng.choice([bits, bits, bits - 1])
+	for x in rng.sample(shared, min(len(shared), 3)) if shared else []:
+		v = x + mod * rng.randint(1, 3)
+		if m < v <= mx:
+			out.add(v)
+	return out
+
+
+def _domain_pair(rng, da, db, mode, shape, k):
+	"""an in-domain pair: every value is non-negative and inside the dtype of the array that holds it"""
+	ma, mb = _dmax(da), _dmax(db)
+	m = min(ma, mb)
+	pool = _universe(rng, m, mode, 2 * k)
+	A, B = _shape_pair(rng, pool, shape)
+	if rng.random() < 0.5:
+		A, B = B, A
+	if rng.random() < 0.8:
+		A = sorted(set(A) | _beyond(rng, m, ma, B))
+		B = sorted(set(B) | _beyond(rng, m, mb, A))
+	return A, B
+
+
+def _reuse_steps(rng, da, db):
+	m = min(_dmax(da), _dmax(db))
+	base = rng.choice([0, max(0, m - 60), max(0, m // 2 - 30)])
+	U = list(range(base, min(m, base + 60) + 1))
+
+	def interior(X):
+		"""same length, same first and last element, another interior"""
+		X = list(X)
+		if 1 <= len(X) < 3:
+			# too short for an interior: same length and first element (or same length only), another last element
+			cand = [v for v in U if v != X[-1] and (len(X) == 1 or v > X[0])]
+			X[-1] = rng.choice(cand) if cand else X[-1]
+		for _ in range(rng.randint(1, 3)):
+			if len(X) < 3:
+				break
+			i = rng.randrange(1, len(X) - 1)
+			cand = [v for v in range(X[i - 1] + 1, X[i + 1]) if v != X[i]]
+			if cand:
+				X[i] = rng.choice(cand)
+		return X
+	steps = []
+	for _ in range(rng.randint(2, 3)):
+		A = sorted(rng.sample(U[::2] + U[1::7], rng.randint(0, 7)))
+		B = sorted(rng.sample(U[::3] + U[1::5], rng.randint(0, 7)))
+		A, B = sorted(set(A)), sorted(set(B))
+		steps.append([A, B])
+		for _ in range(rng.randint(1, 3)):
+			how = rng.choice(['a', 'b', 'both', 'swap'])
+			if how == 'swap' and len(A) == len(B):
+				A, B = B, A
+			else:
+				A = interior(A) if how in ('a', 'both', 'swap') else A
+				B = interior(B) if how in ('b', 'both') else B
+			steps.append([list(A), list(B)])
+	return steps
 
 
 def generate(ctx):
@@ -294,3 +912,66 @@ def generate(ctx):
 		yield 'dtype', dict(dtype=dt)
 	yield 'big', dict(name='union_exactly_2p24')
 	yield 'big', dict(name='union_2p24_plus_1')
+
+	# ---- audit streams ----------------------------------------------------------------------------
+	# every dtype x every memory layout, on either side, through all call forms
+	for rep in range(ctx.pick(3, 12)):
+		for d in DTYPES:
+			for lay in LAYOUTS:
+				for side in (0, 1):
+					od, ol = rng.choice(DTYPES), rng.choice(LAYOUTS)
+					da, db, la, lb = (d, od, lay, ol) if side == 0 else (od, d, ol, lay)
+					A, B = _domain_pair(rng, da, db, rng.choice(['hug-top', 'hug-bottom', 'pow2', 'spread']), rng.choice(SHAPES),
+					                    rng.choice([1, 2, 3, 5, 8, 20]))
+					ctx.count('stream:form-layouts')
+					yield 'form', dict(a=A, b=B, da=da, db=db, la=la, lb=lb)
+	# every dtype pair: in-domain sets hugging each array's own maximum / power-of-two boundaries / all magnitudes
+	for rep in range(ctx.pick(3, 12)):
+		for da, db in combos:
+			for mode in ('hug-top', 'hug-top', 'pow2', 'spread'):
+				A, B = _domain_pair(rng, da, db, mode, rng.choice(SHAPES), rng.choice([1, 2, 3, 5, 8, 20]))
+				la, lb = (rng.choice(LAYOUTS), rng.choice(LAYOUTS)) if rng.random() < 0.3 else ('c', 'c')
+				ctx.count('stream:top-of-range-' + mode)
+				yield 'form', dict(a=A, b=B, da=da, db=db, la=la, lb=lb)
+	# buffers overwritten in place between calls
+	for i in range(ctx.pick(180, 1500)):
+		da, db = combos[i % 36] if i < 36 else (rng.choice(DTYPES), rng.choice(DTYPES))
+		ctx.count('stream:reuse')
+		yield 'reuse', dict(da=da, db=db, steps=_reuse_steps(rng, da, db))
+	# collections through the bulk entry points (all 36 reference x query dtype pairs)
+	nb = ctx.pick(112, 600)
+	for i in range(nb):
+		dr, dq = combos[i % 36]
+		mr, mq = _dmax(dr), _dmax(dq)
+		m = min(mr, mq)
+		pool = _universe(rng, m, rng.choice(['hug-top', 'hug-bottom', 'pow2', 'spread']), rng.choice([4, 8, 16]))
+		nsig = rng.choice([0, 1, 2, 3, 4, 6]) if i >= 2 else 3
+		extra_r = sorted(_beyond(rng, m, mr, pool))
+		sigs = []
+		for _ in range(nsig):
+			x = sorted(set(rng.sample(pool, rng.randint(0, len(pool)))) | set(rng.sample(extra_r, rng.randint(0, len(extra_r)))))
+			sigs.append(x if rng.random() > 0.15 or not sigs else list(rng.choice(sigs)))
+		q = sorted(set(rng.sample(pool, rng.randint(0, len(pool)))) | (_beyond(rng, m, mq, pool) if rng.random() < 0.6 else set()))
+		if sigs and rng.random() < 0.15 and all(v <= mq for v in sigs[0]):
+			q = list(sigs[0])
+		perm = [rng.randrange(nsig) for _ in range(rng.randint(1, nsig + 1))] if nsig else []
+		# the default thread count costs ~0.1 s per parallel call on a busy machine: few such cases, small ones
+		# (and even two threads cost ~0.01 s there, against microseconds for one)
+		omp = None if i < ctx.pick(1, 12) else 5 if i < ctx.pick(2, 24) else 2 if i % 8 == 2 else 1
+		chunks = [2] if omp in (None, 5) else [None, 1, 2, nsig + 3]
+		ctx.count('stream:bulk-omp-' + str(omp or 'default'))
+		yield 'bulk', dict(sigs=sigs, dr=dr, q=q, dq=dq, perm=perm, omp=omp, chunks=chunks, hdf5=(i % 5 == 0), npidx=(i % 3 == 1))
+	# large seeded sets (|A|, |B| < 2^24): sizes between the random streams (<= 3000) and the two named 2^24 cases
+	fixed = [dict(seed=1, n=65536, da='u2', db='u2', place='full', shape='random', ov=3, strided=False),
+	         dict(seed=2, n=32768, da='i2', db='u8', place='full', shape='nested', ov=5, strided=True),
+	         dict(seed=3, n=65536, da='u4', db='u2', place='full', shape='equal', ov=0, strided=False)]
+	for c in fixed:
+		ctx.count('stream:gen-large')
+		yield 'gen', c
+	for i in range(ctx.pick(27, 200)):
+		da, db = rng.choice(DTYPES), rng.choice(DTYPES)
+		c = dict(seed=rng.randrange(1 << 30), n=rng.choice([20000, 60000, 250000, 1000000] + ([] if ctx.quick else [6000000])),
+		         da=da, db=db, place=rng.choice(['low', 'top', 'spread', 'full']),
+		         shape=rng.choice(['random', 'random', 'nested', 'equal', 'disjoint']), ov=rng.randint(0, 8), strided=rng.random() < 0.3)
+		ctx.count('stream:gen-large')
+		yield 'gen', c
